@@ -1,6 +1,428 @@
-//! C19 harness commands (stub).
-use std::io::Write;
+//! C19 harness: prints ledger entries with the REAL printer (`syntax::display::DisplayContext`,
+//! `format::FormatOptions::format`) and measures display columns with the REAL `unicode-width`.
+//!
+//! `hx c19 width`  case: blank separated hex code points      -> `cp:width_cjk:width` per code point (string-level
+//!                                                               measurement of the one-character string, as display.rs does)
+//! `hx c19 text`   case: `(precs (C N)...) <enc ledger text>` -> parse with the real parser, then as `tree`; plus
+//!                                                               `fmt=` the output of FormatOptions::format on the text
+//! `hx c19 tree`   case: `(precs (C N)...) (e1 e2 ...)`       -> entries decoded from the S-expression (same format as
+//!                                                               tree.rs dumps), printed one by one with
+//!                                                               `DisplayContext { precisions }`, each followed by a blank
+//!                                                               line exactly as `FormatOptions::format` does
+//! record: `ok tree=(e1 ...) out=<enc> fmt=<enc|-> meas=((i:w i:w ...) ...)`
+//!   meas: for every line of `out` (split at LF), the display width (`width_cjk`, string level) of the line prefix
+//!         ending at every blank/non-blank transition and at the end of the line; `i` counts characters.
+//! or `parse-error <enc msg>` / `bad-case <why>` / `panic <enc msg>`.
+use std::borrow::Cow;
+use std::collections::HashMap;
+use std::io::{BufRead, Write};
 
-pub fn run(_args: &[String], _out: &mut dyn Write) -> i32 {
+use okane_core::syntax::{self, display::DisplayContext, expr, plain, pretty_decimal::PrettyDecimal};
+use rust_decimal::Decimal;
+use unicode_width::UnicodeWidthStr;
+
+use crate::sx;
+use crate::tree;
+
+// ---------------------------------------------------------------------------------------------
+// S-expression reader (inverse of tree.rs)
+
+#[derive(Debug, Clone)]
+enum Sx {
+    Atom(String),
+    List(Vec<Sx>),
+}
+
+fn parse_all(s: &str) -> Option<Vec<Sx>> {
+    let mut stack: Vec<Vec<Sx>> = vec![Vec::new()];
+    let mut cur = String::new();
+    fn flush(cur: &mut String, stack: &mut Vec<Vec<Sx>>) {
+        if !cur.is_empty() {
+            stack.last_mut().unwrap().push(Sx::Atom(std::mem::take(cur)));
+        }
+    }
+    for c in s.chars() {
+        match c {
+            '(' => {
+                flush(&mut cur, &mut stack);
+                stack.push(Vec::new());
+            }
+            ')' => {
+                flush(&mut cur, &mut stack);
+                let top = stack.pop()?;
+                stack.last_mut()?.push(Sx::List(top));
+            }
+            ' ' | '\t' | '\r' | '\n' => flush(&mut cur, &mut stack),
+            c => cur.push(c),
+        }
+    }
+    flush(&mut cur, &mut stack);
+    if stack.len() != 1 {
+        return None;
+    }
+    stack.pop()
+}
+
+fn atom(s: &Sx) -> Option<&str> {
+    match s {
+        Sx::Atom(a) => Some(a.as_str()),
+        _ => None,
+    }
+}
+fn list(s: &Sx) -> Option<&[Sx]> {
+    match s {
+        Sx::List(l) => Some(l.as_slice()),
+        _ => None,
+    }
+}
+fn tagged<'a>(s: &'a Sx, tag: &str) -> Option<&'a [Sx]> {
+    let l = list(s)?;
+    if atom(l.first()?)? == tag {
+        Some(&l[1..])
+    } else {
+        None
+    }
+}
+fn text(s: &Sx) -> Option<Cow<'static, str>> {
+    Some(Cow::Owned(sx::dec(atom(s)?)?))
+}
+fn opt<T>(s: &Sx, f: impl Fn(&Sx) -> Option<T>) -> Option<Option<T>> {
+    let l = list(s)?;
+    match l.len() {
+        0 => Some(None),
+        1 => Some(Some(f(&l[0])?)),
+        _ => None,
+    }
+}
+fn many<T>(s: &Sx, f: impl Fn(&Sx) -> Option<T>) -> Option<Vec<T>> {
+    list(s)?.iter().map(f).collect()
+}
+
+fn date(s: &Sx) -> Option<chrono::NaiveDate> {
+    let a = tagged(s, "d")?;
+    if a.len() != 3 {
+        return None;
+    }
+    chrono::NaiveDate::from_ymd_opt(atom(&a[0])?.parse().ok()?, atom(&a[1])?.parse().ok()?, atom(&a[2])?.parse().ok()?)
+}
+
+fn pdec(s: &Sx) -> Option<PrettyDecimal> {
+    let a = tagged(s, "dec")?;
+    if a.len() != 4 {
+        return None;
+    }
+    let neg = atom(&a[0])? == "1";
+    let mant: i128 = atom(&a[1])?.parse().ok()?;
+    let scale: u32 = atom(&a[2])?.parse().ok()?;
+    let mut d = Decimal::try_from_i128_with_scale(mant, scale).ok()?;
+    d.set_sign_negative(neg);
+    Some(match atom(&a[3])? {
+        "n" => PrettyDecimal::unformatted(d),
+        "p" => PrettyDecimal::plain(d),
+        "c" => PrettyDecimal::comma3dot(d),
+        _ => return None,
+    })
+}
+
+fn amount(s: &Sx) -> Option<expr::Amount<'static>> {
+    let a = tagged(s, "amt")?;
+    if a.len() != 2 {
+        return None;
+    }
+    Some(expr::Amount { value: pdec(&a[0])?, commodity: text(&a[1])? })
+}
+
+fn vexpr(s: &Sx) -> Option<expr::ValueExpr<'static>> {
+    if let Some(a) = tagged(s, "paren") {
+        return Some(expr::ValueExpr::Paren(expr_(a.first()?)?));
+    }
+    Some(expr::ValueExpr::Amount(amount(s)?))
+}
+
+fn expr_(s: &Sx) -> Option<expr::Expr<'static>> {
+    if let Some(a) = tagged(s, "neg") {
+        return Some(expr::Expr::Unary(expr::UnaryOpExpr { op: expr::UnaryOp::Negate, expr: Box::new(expr_(a.first()?)?) }));
+    }
+    if let Some(a) = tagged(s, "bin") {
+        if a.len() != 3 {
+            return None;
+        }
+        let op = match atom(&a[0])? {
+            "add" => expr::BinaryOp::Add,
+            "sub" => expr::BinaryOp::Sub,
+            "mul" => expr::BinaryOp::Mul,
+            "div" => expr::BinaryOp::Div,
+            _ => return None,
+        };
+        return Some(expr::Expr::Binary(expr::BinaryOpExpr { op, lhs: Box::new(expr_(&a[1])?), rhs: Box::new(expr_(&a[2])?) }));
+    }
+    let a = tagged(s, "val")?;
+    Some(expr::Expr::Value(Box::new(vexpr(a.first()?)?)))
+}
+
+fn exchange(s: &Sx) -> Option<syntax::Exchange<'static>> {
+    if let Some(a) = tagged(s, "total") {
+        return Some(syntax::Exchange::Total(vexpr(a.first()?)?));
+    }
+    let a = tagged(s, "rate")?;
+    Some(syntax::Exchange::Rate(vexpr(a.first()?)?))
+}
+
+fn clear(s: &Sx) -> Option<syntax::ClearState> {
+    Some(match atom(s)? {
+        "u" => syntax::ClearState::Uncleared,
+        "c" => syntax::ClearState::Cleared,
+        "p" => syntax::ClearState::Pending,
+        _ => return None,
+    })
+}
+
+fn lot(s: &Sx) -> Option<plain::Lot<'static>> {
+    let a = tagged(s, "lot")?;
+    if a.len() != 3 {
+        return None;
+    }
+    Some(plain::Lot { price: opt(&a[0], exchange)?, date: opt(&a[1], date)?, note: opt(&a[2], text)? })
+}
+
+fn posting_amount(s: &Sx) -> Option<plain::PostingAmount<'static>> {
+    let a = tagged(s, "pa")?;
+    if a.len() != 3 {
+        return None;
+    }
+    Some(plain::PostingAmount { amount: vexpr(&a[0])?, cost: opt(&a[1], exchange)?, lot: lot(&a[2])? })
+}
+
+fn meta_value(s: &Sx) -> Option<syntax::MetadataValue<'static>> {
+    if let Some(a) = tagged(s, "text") {
+        return Some(syntax::MetadataValue::Text(text(a.first()?)?));
+    }
+    let a = tagged(s, "expr")?;
+    Some(syntax::MetadataValue::Expr(text(a.first()?)?))
+}
+
+fn metadata(s: &Sx) -> Option<syntax::Metadata<'static>> {
+    if let Some(a) = tagged(s, "comment") {
+        return Some(syntax::Metadata::Comment(text(a.first()?)?));
+    }
+    if let Some(a) = tagged(s, "tags") {
+        return Some(syntax::Metadata::WordTags(a.iter().map(text).collect::<Option<Vec<_>>>()?));
+    }
+    let a = tagged(s, "kv")?;
+    if a.len() != 2 {
+        return None;
+    }
+    Some(syntax::Metadata::KeyValueTag { key: text(&a[0])?, value: meta_value(&a[1])? })
+}
+
+fn posting(s: &Sx) -> Option<plain::Posting<'static>> {
+    let a = tagged(s, "post")?;
+    if a.len() != 5 {
+        return None;
+    }
+    Some(plain::Posting {
+        account: text(&a[0])?,
+        clear_state: clear(&a[1])?,
+        amount: opt(&a[2], posting_amount)?,
+        balance: opt(&a[3], vexpr)?,
+        metadata: many(&a[4], metadata)?,
+    })
+}
+
+fn entry(s: &Sx) -> Option<plain::LedgerEntry<'static>> {
+    if let Some(a) = tagged(s, "txn") {
+        if a.len() != 7 {
+            return None;
+        }
+        return Some(syntax::LedgerEntry::Txn(plain::Transaction {
+            date: date(&a[0])?,
+            effective_date: opt(&a[1], date)?,
+            clear_state: clear(&a[2])?,
+            code: opt(&a[3], text)?,
+            payee: text(&a[4])?,
+            posts: many(&a[5], posting)?,
+            metadata: many(&a[6], metadata)?,
+        }));
+    }
+    if let Some(a) = tagged(s, "comment") {
+        return Some(syntax::LedgerEntry::Comment(syntax::TopLevelComment(text(a.first()?)?)));
+    }
+    if let Some(a) = tagged(s, "applytag") {
+        if a.len() != 2 {
+            return None;
+        }
+        return Some(syntax::LedgerEntry::ApplyTag(syntax::ApplyTag { key: text(&a[0])?, value: opt(&a[1], meta_value)? }));
+    }
+    if tagged(s, "endapplytag").is_some() {
+        return Some(syntax::LedgerEntry::EndApplyTag);
+    }
+    if let Some(a) = tagged(s, "include") {
+        return Some(syntax::LedgerEntry::Include(syntax::IncludeFile(text(a.first()?)?)));
+    }
+    if let Some(a) = tagged(s, "account") {
+        if a.len() != 2 {
+            return None;
+        }
+        let details = many(&a[1], |d| {
+            if let Some(x) = tagged(d, "comment") {
+                return Some(syntax::AccountDetail::Comment(text(x.first()?)?));
+            }
+            if let Some(x) = tagged(d, "note") {
+                return Some(syntax::AccountDetail::Note(text(x.first()?)?));
+            }
+            let x = tagged(d, "alias")?;
+            Some(syntax::AccountDetail::Alias(text(x.first()?)?))
+        })?;
+        return Some(syntax::LedgerEntry::Account(syntax::AccountDeclaration { name: text(&a[0])?, details }));
+    }
+    let a = tagged(s, "commodity")?;
+    if a.len() != 2 {
+        return None;
+    }
+    let details = many(&a[1], |d| {
+        if let Some(x) = tagged(d, "comment") {
+            return Some(syntax::CommodityDetail::Comment(text(x.first()?)?));
+        }
+        if let Some(x) = tagged(d, "note") {
+            return Some(syntax::CommodityDetail::Note(text(x.first()?)?));
+        }
+        if let Some(x) = tagged(d, "alias") {
+            return Some(syntax::CommodityDetail::Alias(text(x.first()?)?));
+        }
+        let x = tagged(d, "format")?;
+        Some(syntax::CommodityDetail::Format(amount(x.first()?)?))
+    })?;
+    Some(syntax::LedgerEntry::Commodity(syntax::CommodityDeclaration { name: text(&a[0])?, details }))
+}
+
+fn precisions(s: &Sx) -> Option<HashMap<String, u8>> {
+    let a = tagged(s, "precs")?;
+    let mut m = HashMap::new();
+    for p in a {
+        let l = list(p)?;
+        if l.len() != 2 {
+            return None;
+        }
+        m.insert(text(&l[0])?.into_owned(), atom(&l[1])?.parse().ok()?);
+    }
+    Some(m)
+}
+
+// ---------------------------------------------------------------------------------------------
+// measuring
+
+/// display width (string level, East Asian context) of the prefixes of `line` that end at a blank/non-blank
+/// transition or at the end of the line; indices count characters.
+fn measure(line: &str) -> String {
+    let mut parts: Vec<String> = Vec::new();
+    let chars: Vec<(usize, char)> = line.char_indices().collect();
+    for (k, (byte, c)) in chars.iter().enumerate() {
+        if k > 0 {
+            let prev = chars[k - 1].1;
+            if (prev == ' ') != (*c == ' ') {
+                parts.push(format!("{}:{}", k, UnicodeWidthStr::width_cjk(&line[..*byte])));
+            }
+        }
+    }
+    parts.push(format!("{}:{}", chars.len(), UnicodeWidthStr::width_cjk(line)));
+    format!("({})", parts.join(" "))
+}
+
+fn measure_all(out: &str) -> String {
+    let mut lines: Vec<&str> = out.split('\n').collect();
+    if lines.last() == Some(&"") {
+        lines.pop();
+    }
+    format!("({})", lines.iter().map(|l| measure(l)).collect::<Vec<_>>().join(" "))
+}
+
+fn print_entries(entries: &[plain::LedgerEntry<'_>], precs: HashMap<String, u8>) -> String {
+    use std::fmt::Write as _;
+    let ctx = DisplayContext { precisions: precs };
+    let mut out = String::new();
+    for e in entries {
+        // exactly the statement of FormatOptions::format
+        writeln!(out, "{}", ctx.as_display(e)).unwrap();
+    }
+    out
+}
+
+fn record(entries: &[plain::LedgerEntry<'_>], precs: HashMap<String, u8>, fmt: Option<String>) -> String {
+    let tree: Vec<String> = entries.iter().map(tree::entry).collect();
+    let out = print_entries(entries, precs);
+    format!(
+        "ok tree=({}) out={} fmt={} meas={}",
+        tree.join(" "),
+        sx::enc(&out),
+        fmt.map(|f| sx::enc(&f)).unwrap_or_else(|| "-".to_string()),
+        measure_all(&out)
+    )
+}
+
+fn run_tree(line: &str) -> String {
+    let Some(top) = parse_all(line) else { return "bad-case sexp".to_string() };
+    if top.len() != 2 {
+        return "bad-case arity".to_string();
+    }
+    let Some(precs) = precisions(&top[0]) else { return "bad-case precs".to_string() };
+    let Some(entries) = many(&top[1], entry) else { return "bad-case tree".to_string() };
+    record(&entries, precs, None)
+}
+
+fn run_text(line: &str) -> String {
+    let Some(sp) = line.rfind(' ') else { return "bad-case text".to_string() };
+    let Some(top) = parse_all(&line[..sp]) else { return "bad-case sexp".to_string() };
+    if top.len() != 1 {
+        return "bad-case arity".to_string();
+    }
+    let Some(precs) = precisions(&top[0]) else { return "bad-case precs".to_string() };
+    let Some(text) = sx::dec(&line[sp + 1..]) else { return "bad-case enc".to_string() };
+    let entries = match tree::parse_plain(&text) {
+        Ok(es) => es,
+        Err(e) => return format!("parse-error {}", sx::enc(&e)),
+    };
+    let mut fmt_out: Vec<u8> = Vec::new();
+    let mut r = text.as_bytes();
+    let fmt = match okane_core::format::FormatOptions::new().format(&mut r, &mut fmt_out) {
+        Ok(()) => String::from_utf8(fmt_out).unwrap_or_else(|_| "<non-utf8>".to_string()),
+        Err(e) => format!("<format error: {}>", e),
+    };
+    record(&entries, precs, Some(fmt))
+}
+
+fn run_width(line: &str) -> String {
+    let mut parts = Vec::new();
+    for w in line.split(' ').filter(|w| !w.is_empty()) {
+        let Some(c) = u32::from_str_radix(w, 16).ok().and_then(char::from_u32) else {
+            parts.push(format!("{}:-:-", w));
+            continue;
+        };
+        let s = c.to_string();
+        parts.push(format!("{}:{}:{}", w, UnicodeWidthStr::width_cjk(s.as_str()), UnicodeWidthStr::width(s.as_str())));
+    }
+    parts.join(" ")
+}
+
+pub fn run(args: &[String], out: &mut dyn Write) -> i32 {
+    let mode = args.first().map(|s| s.as_str()).unwrap_or("");
+    if !matches!(mode, "width" | "text" | "tree") {
+        eprintln!("usage: hx c19 width|text|tree");
+        return 2;
+    }
+    let mode = mode.to_string();
+    let stdin = std::io::stdin();
+    for line in stdin.lock().lines() {
+        let line = line.unwrap();
+        let m = mode.clone();
+        let rec = sx::catch(move || match m.as_str() {
+            "width" => run_width(&line),
+            "text" => run_text(&line),
+            _ => run_tree(&line),
+        });
+        match rec {
+            Ok(r) => writeln!(out, "{}", r).unwrap(),
+            Err(msg) => writeln!(out, "panic {}", sx::enc(&msg)).unwrap(),
+        }
+    }
     0
 }
